@@ -174,7 +174,8 @@ def run(ctx):
     if not ctx.replay:
         legs = {"repetitions": "evaluations", "rebuilds": "rebuilds", "reloads": "reloads", "exportnetwork-files": "networkfiles",
                 "histories": "histories", "interleaved-formats": "interleaves", "boundary-resaves": "boundaries",
-                "shared-writer-saves": "sharedwrites", "cold-exportnetwork-files": "coldfiles"}
+                "shared-writer-saves": "sharedwrites", "cold-exportnetwork-files": "coldfiles",
+                "extreme-enum-indexes": "extremeenums"}
         any_new = any(not any(o["signature"] == "c15-" + k for o in ctx.known_open) for s_ in summaries.values() for k in s_["propfail"])
         for leg, key in sorted(legs.items()):
             for procs, s_ in sorted(summaries.items()):
@@ -200,6 +201,7 @@ def run(ctx):
         "history_comparisons": sum(s.get("histories", 0) for s in summaries.values()),
         "shared_writer_saves": sum(s.get("sharedwrites", 0) for s in summaries.values()),
         "cold_export_network_files": sum(s.get("coldfiles", 0) for s in summaries.values()),
+        "extreme_enum_index_comparisons": sum(s.get("extremeenums", 0) for s in summaries.values()),
         "boundary_resave_comparisons": sum(s.get("boundaries", 0) for s in summaries.values()),
         "cases_written": written_total, "cases_compared_by_driver": driver_total,
         "interleaved_format_exports": sum(s.get("interleaves", 0) for s in summaries.values()),
